@@ -52,6 +52,10 @@ def run(ctx):
         impl = rnd.choice([f"p_ = ndx.asarray({lit(z1)}); q_ = ndx.asarray({lit(z2)}); out = [1.0 / p_, 1.0 / q_, x + 0]",
                            f"p_ = ndx.asarray({lit(z1)}); q_ = ndx.asarray({lit(z2)}); out = [ndx.divide(x, x) / p_, ndx.divide(x, x) / q_] if False else [ndx.atan2(p_, -p_ * 0 - 1), ndx.atan2(q_, -q_ * 0 - 1)]",
                            f"p_ = ndx.asarray({lit(z1)}); q_ = ndx.asarray({lit(z2)}); out = [ndx.sign(1.0 / p_), ndx.sign(1.0 / q_), x * 1]"])
+        if i % 3 == 0:
+            x = {"dtype": d, "shape": [k], "data": [ops.fhex(v) for v in ([-0.0, 0.0] + [2.0] * (k - 2))[:k]]}
+            zero = rnd.choice(["0", "0.0", "ndx.asarray(np.int32(0))", "ndx.asarray(np.float32(0.0))", "False"])
+            impl = rnd.choice([f"y_ = x + {zero}; out = [1.0 / y_, y_]", f"y_ = {zero} + x; out = [1.0 / y_, ndx.atan2(y_, y_ * 0 - 1)]", f"y_ = x * 1 + {zero}; out = 1.0 / y_"])
         cases.append({"id": f"NZ-{i}", "inputs": {"x": x}, "impl": impl, "oracle": None, "tol": [0, 0],
                       "meta": {"func": "signed-zero-constants", "dtype": d, "dclass": "float"}, "lazy_subsets": [{"names": ["x"]}, {"names": []}]})
     with_ort = core.run_cases("harness.h_ops", cases, workers=14, per_case_timeout=180)
